@@ -1,8 +1,8 @@
 import OdxVerif.Proofs.CompReject2ByteSize
-import OdxVerif.Proofs.CompReject2DynStr
+import OdxVerif.Proofs.CompReject2DynMM
 /-! Compositional tier, rejection side, second part (task W18, C04): the inductive class **`DescribedP2`** of parameter
     DESCRIPTIONS — `DescribedP` (`Proofs/CompRejectDescribed.lean`) with VALUE leaves (with or without PHYSICAL-DEFAULT-VALUE)
-    of **all nine kinds**, LEADING-LENGTH-INFO-TYPE leaves over `A_BYTEFIELD` and the string base types, MIN-MAX-LENGTH-TYPE leaves over `A_BYTEFIELD` ended by the
+    of **all nine kinds**, LEADING-LENGTH-INFO-TYPE leaves over `A_BYTEFIELD` and the string base types, MIN-MAX-LENGTH-TYPE leaves over `A_BYTEFIELD` and the string base types ended by the
     end of the PDU (last parameter: `mayEop`), VALUE parameters typed by a STRUCTURE with BYTE-SIZE, and field items with optional BYTE-SIZE — is
     sound for inputs whose atoms Python can supply (`DescribedP2.okW : DescribedP2 p → p.OkW`); the message level
     (`encodeMessage_nested2_cases`). -/
@@ -17,6 +17,7 @@ inductive DescribedP2 : PDesc → Prop
   | leadBytes (sh : LeadShape) : sh.ok → DescribedP2 (PDesc.ofLeadBytes sh)
   | leadStr (sh : LeadStrShape) : sh.ok → DescribedP2 (PDesc.ofLeadStr sh)
   | minmaxLastBytes (sh : MMShape) : sh.ok → DescribedP2 (PDesc.ofMinMaxLastBytes sh)
+  | minmaxLastStr (sh : MMStrShape) : sh.ok → DescribedP2 (PDesc.ofMinMaxLastStr sh)
   | struct (name : String) (bp : Option Nat) (ps : List PDesc) :
       (∀ p ∈ ps, DescribedP2 p) → PDescs.namesOk ps → PDescs.eopLast ps →
       DescribedP2 (PDesc.ofValue name bp (DDesc.struct ps))
@@ -52,6 +53,7 @@ theorem DescribedP2.okW {p : PDesc} (h : DescribedP2 p) : p.OkW := by
   | leadBytes sh hsh => exact PDesc.ofLeadBytes_okW sh hsh
   | leadStr sh hsh => exact PDesc.ofLeadStr_okW sh hsh
   | minmaxLastBytes sh hsh => exact PDesc.ofMinMaxLastBytes_okW sh hsh
+  | minmaxLastStr sh hsh => exact PDesc.ofMinMaxLastStr_okW sh hsh
   | struct name bp ps _ hn hl ih => exact PDesc.ofValue_okW name bp _ (DDesc.struct_okW ps ih hn hl)
   | structBS name bp bs ps _ hn hne ih => exact PDesc.ofValue_okW name bp _ (DDesc.structBS_okW bs ps ih hn hne)
   | staticField name bp count n bso shape _ hn hne ih =>
